@@ -20,7 +20,7 @@ from ..gen import rtl as G
 
 PID = "C02"
 
-MANIFEST = {
+_MANIFEST_NOT_READY = MANIFEST_ = {
     "category": "other",
     "technique": "Coq reference semantics of a Veryl core (µRTL) with order-independence proofs + differential "
                  "correspondence of every simulator engine against the extracted reference",
@@ -49,7 +49,7 @@ def corpus_cases():
         for f in sorted(os.listdir(d)):
             if f.endswith(".json"):
                 j = json.load(open(os.path.join(d, f)))
-                out.append((G.module_from_json(j["module"]), G.stim_from_json(j["stim"]), "corpus:" + f))
+                out.append((G.module_from_json(j["module"]), G.stim_from_json(j["stim"]), "corpus:" + f, j.get("known_key")))
     return out
 
 
@@ -63,7 +63,7 @@ def gen_cases(rng, n, cycles):
         elif k < 0.35:
             prof = dict(max_depth=2)
         m = G.gen_program(rng, **prof)
-        out.append((m, G.gen_stimulus(rng, m, cycles), "gen:%d" % i))
+        out.append((m, G.gen_stimulus(rng, m, cycles), "gen:%d" % i, None))
     return out
 
 
@@ -158,7 +158,7 @@ def run(tier, seed, replay):
         "extraction ExtrOcamlBasic + OCaml driver (vp/rtl_ref.py), vh-sim harness (harness/sim), generator vp/gen/rtl.py"])
     res.assumptions = ["programs are in the µRTL core (design/RTL.md); comb items acyclic and single-driver (checked by the reference driver)",
                        "the engines' code is not modelled; agreement is established per generated program x stimulus"]
-    res.coverage["explanation"] = MANIFEST["text"]
+    res.coverage["explanation"] = MANIFEST_["text"]
     proved = C.prove(res, PID)
 
     ok, binary, log = C.harness_build("vh-sim")
@@ -179,7 +179,7 @@ def run(tier, seed, replay):
         rp = json.load(open(replay))
         m = G.module_from_json(rp["module"])
         stim = G.stim_from_json(rp["stim"])
-        r, r2, r4 = run_all(binary, refbin, [(m, stim, "replay")], engines2, engines4)
+        r, r2, r4 = run_all(binary, refbin, [(m, stim, "replay", None)], engines2, engines4)
         one = {e: r[e][0] for e in r}
         for k, w, d in judge(m, stim, r2[0], r4[0], one, engines2, engines4):
             print("replay:", k, w)
@@ -192,14 +192,22 @@ def run(tier, seed, replay):
     cases = corpus_cases() + gen_cases(rng, n, cycles)
     r, ref2, ref4 = run_all(binary, refbin, cases, engines2, engines4)
 
-    nbad_ref = sum(1 for x in ref2 if x[0] != "OK")
-    res.obligation("every generated program is inside the reference's preconditions", nbad_ref == 0,
-                   str([x for x in ref2 if x[0] != "OK"][:2]))
+    badref = [x for x, c in zip(ref2, cases) if x[0] != "OK" and not c[3]]
+    res.obligation("every generated program is inside the reference's preconditions and validated fragment", not badref, str(badref[:2]))
     distinct = set()
     failures = []
     accepted = 0
-    for i, (m, stim, tag) in enumerate(cases):
+    for i, (m, stim, tag, known) in enumerate(cases):
         one = {e: r[e][i] for e in r}
+        if known:
+            # a recorded finding (KNOWN_FINDINGS.txt): outside the reference's validated fragment; judged by
+            # the property's own oracle only, under the finding's own key
+            kb = [b for b in judge(m, stim, ("BAD",), ("BAD",), one, engines2, engines4)
+                  if b[0] in ("engines-differ", "4state-differs")]
+            res.hist("known_finding_cases", "reproduced" if kb else "not reproduced")
+            if kb:
+                res.violation(known, kb[0][1], {"module": G.module_to_json(m), "stim": G.stim_to_json(stim), "veryl": G.to_veryl(m)})
+            continue
         if all(one[e][0] == "ERR" for e in one):
             res.hist("rejected_by_analyzer", one[engines2[0]][1][:60])
             continue
@@ -231,7 +239,7 @@ def run(tier, seed, replay):
 
     reported = set()
     for i, k, w, d in orac + corr:
-        m, stim, tag = cases[i]
+        m, stim, tag, _ = cases[i]
         key = known_key(k, m)
         if key in reported:
             continue
@@ -244,7 +252,7 @@ def run(tier, seed, replay):
 
         def pred(m2, st2, k=k):
             try:
-                rr, a2, a4 = run_all(binary, refbin, [(m2, st2, "shrink")], engines2, engines4)
+                rr, a2, a4 = run_all(binary, refbin, [(m2, st2, "shrink", None)], engines2, engines4)
             except Exception:
                 return False
             one2 = {e: rr[e][0] for e in rr}
